@@ -77,6 +77,13 @@ def pck_bytes(bits, val, form, r):
     return bytes(b)
 
 
+def given(c):
+    """What the configuration supplies next to what it requests (Sb31Format!Givens; derived from k by Sb31CfgGen!Norm): part-common key
+    of `pck` bits (0: no containerKeyBlobEncryptionKey), kdkAccessRights (-1: key absent), ISK keys in the certificate block configuration."""
+    return c.get("given") or {"pck": c["pck"] if c["enc"] or c["k"]["pckForm"] != "absent" else 0, "rights": c["rights"] if c["enc"] else -1,
+                              "isk": bool(c["isk"])}   # (cases recorded before the dimension existed)
+
+
 def concretise(case, r):
     k = case["k"]
     ts = r.choice([1, 0xFFFFFFFF, 0x100000000, 2**63, 2**64 - 1, r.getrandbits(32) + 1, r.getrandbits(64) | 1, 0x2A5B0E11])
@@ -88,6 +95,8 @@ def concretise(case, r):
         constraints=word(r) if case["isk"] else 0, udata=r.randbytes(case["ud"]).hex() if case["isk"] else "",
         cmds=[conc_cmd(ac, k["fam"], r) for ac in case["cmds"]],
         pck_hex=pck_bytes(case["pck"], k["pckVal"], k["pckForm"], r).hex(), upper=r.random() < 0.3, via_set=False)
+    if given(case)["isk"] and not case["isk"]:   # ISK keys the certificate block configuration names although useIsk is false
+        c.update(g_constraints=word(r), g_udata=r.randbytes(r.choice([0, 4, 32])).hex())
     return c
 
 
@@ -214,6 +223,10 @@ def render(c, d, pool):
     k, curve, used, f = c["k"], c["curve"], c["used"], c["k"]["num"]
     pub = lambda n: pool.pub_path[curve, n]  # noqa: E731
     roots, isk = key_names(c)
+    g = given(c)
+    if (k["pckForm"] == "absent") != (g["pck"] == 0) or (c["enc"] and (g["pck"] != c["pck"] or g["rights"] != c["rights"])) or (c["isk"] and not g["isk"]) \
+            or (k["cb"] == "bin" and g["isk"] != bool(c["isk"])):
+        raise Machinery(f"configuration case outside the case space: enc={c['enc']} isk={c['isk']} pck={c['pck']} rights={c['rights']} k={k}, supply {g}")
     cfg = {"family": k["fam"], "firmwareVersion": num(c["fw"], f), "containerOutputFile": "out.sb3"}
     # ---- certificate block: nested configuration file or binary
     if k["cb"] == "bin":
@@ -227,12 +240,13 @@ def render(c, d, pool):
             cb[f"rootCertificate{i}File"] = pub(roots[i])
         if k["rootId"]:
             cb["mainRootCertId"] = used
-        if c["isk"]:
+        if g["isk"]:        # requested (useIsk: true) - or only supplied: the template lists the ISK keys whatever useIsk says
+            udata = c["udata"] if c["isk"] else c.get("g_udata", "")
             cb[names["isk"]] = pub(isk)
-            cb[names["constraint"]] = num(c["constraints"], f)
-            if c["udata"]:
+            cb[names["constraint"]] = num(c["constraints"] if c["isk"] else c.get("g_constraints", 0), f)
+            if udata:
                 with open(os.path.join(d, "user_data.bin"), "wb") as fh:
-                    fh.write(bytes.fromhex(c["udata"]))
+                    fh.write(bytes.fromhex(udata))
                 cb[names["data"]] = "user_data.bin"
             cb.update(key_entry(k["cbSign"], pool.priv_path[curve, roots[used]]))
         cb["containerOutputFile"] = "cert_block_out.bin"
@@ -258,8 +272,8 @@ def render(c, d, pool):
         raise Machinery(f"part-common key form {form} of an {'encrypted' if c['enc'] else 'plain'} case")
     if k["encKey"] != "absent":
         cfg["isEncrypted"] = k["encKey"] == "true"
-    if c["enc"]:
-        cfg["kdkAccessRights"] = c["rights"]
+    if g["rights"] >= 0:    # requested (encrypted) - or only supplied
+        cfg["kdkAccessRights"] = g["rights"]
     if not k["nxpAbsent"]:
         cfg["isNxpContainer"] = c["nxp"]
     if not k["flagsAbsent"]:
